@@ -486,6 +486,8 @@ def run(chk):
     chk.extra["container_histories"] = hstat
     chk.extra["observed"] = {"max_rotate_back_deviation": worst["back"], "max_CAR_deviation": worst["car"], "stored_parts_compared": worst["parts"],
                              "nonzero_entries_absent_below_threshold": worst["pruned_nonzero"]}
+    import distslice
+    distslice.gf_slice(chk, chk.tier == "quick", 'field operators computed through FieldOperator::compute(comm) / the container on several ranks are not the single-rank ones (seen through G)')
     chk.rule = ("scenario = model family x partition (default, ignored, custom integrals of motion N / S_z / N and S_z / per-site charges) x build, as for C03; per scenario every "
                 "stored part of every c^+_i, c_i (container and one-by-one) and of a random sample of c^+_i c_j is compared; distinct = distinct canonical scenario + query set; "
                 "non-trivial = at least one block larger than 1x1; the signature names family, partition and accepted symmetries, block shapes, degenerate or not, build. "
